@@ -369,9 +369,11 @@ def check_memo_functions(ctx, functions, rule='A2p'):
                             if isinstance(x, ast.Compare) and len(x.ops) == 1 and isinstance(x.ops[0], ast.In) and \
                                     norm(x.left) == key and norm(x.comparators[0]) == cont:
                                 # the hit path returns the stored value
+                                # the hit path reads the stored value (returns it, or binds it and goes on)
                                 for m, lab in nd.succ:
-                                    if lab == 'T' and m.kind == 'stmt' and isinstance(m.ast, ast.Return) and \
-                                            f'{cont}[{key}]' in norm(m.ast):
+                                    if lab == 'T' and m.kind == 'stmt' and \
+                                            isinstance(m.ast, (ast.Return, ast.Assign, ast.AnnAssign)) and \
+                                            m.ast.value is not None and f'{cont}[{key}]' in norm(m.ast.value):
                                         hit = True
                             if isinstance(x, ast.Call) and call_name(x) == 'get' and x.args and \
                                     norm(x.args[0]) == key and isinstance(x.func, ast.Attribute) and \
